@@ -688,8 +688,11 @@ def nnf(test, neg=False, rename=None):
     """Guard -> nested ('and'|'or', frozenset(children)) | ('lit', polarity, canonical atom).
     Negations are pushed inward; comparison operators are normalised so that
     `x not in y` == not `x in y`, `a != b` == not `a == b`, `a >= b` == not `a < b`."""
-    if isinstance(test, ast.UnaryOp) and isinstance(test.op, ast.Not):
+    if isinstance(test, ast.UnaryOp) and isinstance(test.op, (ast.Not, ast.Invert)):
         return nnf(test.operand, not neg, rename)
+    if isinstance(test, ast.BinOp) and isinstance(test.op, (ast.BitAnd, ast.BitOr)):
+        # elementwise & / | of masks and tensors: the same connectives
+        test = ast.BoolOp(op=ast.And() if isinstance(test.op, ast.BitAnd) else ast.Or(), values=[test.left, test.right])
     if isinstance(test, ast.BoolOp):
         is_and = isinstance(test.op, ast.And)
         if neg:
